@@ -334,6 +334,43 @@ def params_list(tier):
     return out
 
 
+def mtu_history_check(tier):
+    """Packet.setMTU writes process-wide class attributes: the capacities after a call depend on the LAST value only,
+    whatever was configured before (every ordered sequence of 2-3 values)"""
+    from mpgameserver.connection import Packet
+    vals = [512, 576, 800, 1000, 1089, 1095, 1096, 1400, 1500] if tier == "quick" else [512, 513, 576, 600, 800, 1000, 1089, 1090, 1095, 1096, 1097, 1200, 1400, 1499, 1500]
+    viols = {}
+    old = Packet.MTU
+    n = 0
+
+    def consts():
+        return {k: v for k, v in vars(Packet).items() if isinstance(v, int) and not isinstance(v, bool) and k.isupper()}
+    try:
+        direct = {}
+        for m in vals:
+            Packet.setMTU(1500)
+            Packet.setMTU(m)
+            direct[m] = consts()
+        for depth in (2, 3):
+            for hist in itertools.product(vals, repeat=depth):
+                n += 1
+                for m in hist:
+                    Packet.setMTU(m)
+                got = consts()
+                P, F = caps(hist[-1])
+                bad = None
+                if got.get("MAX_PAYLOAD_SIZE") != P or got.get("MAX_FRAGMENT_SIZE") != F:
+                    bad = "MAX_PAYLOAD_SIZE=%s MAX_FRAGMENT_SIZE=%s, documented %d / %d" % (got.get("MAX_PAYLOAD_SIZE"), got.get("MAX_FRAGMENT_SIZE"), P, F)
+                elif got != direct[hist[-1]]:
+                    bad = "differs from a direct setMTU(%d) in %s" % (hist[-1], sorted(k for k in got if got[k] != direct[hist[-1]].get(k)))
+                if bad:
+                    viols.setdefault(("mtu-history", "the capacities after setMTU depend on the values configured before"), [0, {"part": "mtu-history", "history": list(hist)},
+                                                                                                                       "after setMTU %s: %s" % (" -> ".join(map(str, hist)), bad)])[0] += 1
+    finally:
+        Packet.setMTU(old)
+    return n, viols
+
+
 def run(tier, seed):
     rep = core.Report()
     n = 64
@@ -350,6 +387,9 @@ def run(tier, seed):
             if key not in acc:
                 acc[key] = [0, wit, msg]
             acc[key][0] += cnt
+    n_hist, hv = mtu_history_check(tier)
+    for key, (cnt, wit, msg) in hv.items():
+        acc[key] = [cnt, wit, msg]
     plist = params_list(tier)
     st = explore.explore_all("checks.c09", "scenario", plist, 0, time_budget=(1000 if tier == "quick" else 3600))
     sig_counts = getattr(st, "sig_counts", {})
@@ -369,7 +409,7 @@ def run(tier, seed):
         "evaluations": total + st.executions + st2.executions, "distinct_nontrivial": nontrivial + len(st.outcomes) + len(st2.outcomes),
         "codec_cases": total, "codec_exact_round_trips": nontrivial, "codec_classes": dict(classes),
         "stall_executions": st2.executions, "stall_configurations": len(splist),
-        "packing_executions": st.executions, "packing_configurations": len(plist), "packing_ticks": st.steps, "packing_capped": st.capped,
+        "packing_executions": st.executions, "packing_configurations": len(plist), "packing_ticks": st.steps, "packing_capped": st.capped, "mtu_histories": n_hist,
         "rule": "codec: isServer x 4 ctimes x 8 types x 5x5 seq/ack x 5 ack_bits x %d message lists (count 0,1,2 with all 64 inner type pairs,3,254,255) x {crc, gcm}%s; non-trivial = exact round trips. "
                 "packing: MTUs x {client, server-twisted, server-thread} x every send sequence of <=2/3 lengths from {0,1,P-6,P-5,P-1,P,P+1,P/2,P/2+1} per retry mode, mixed-mode triples, bursts of 254..300 messages of 0/1 bytes; perfect network until drained. stall: retry-mode messages sent on consecutive frames with withheld acks, then one or two long frames (0.25/0.6 s) so that everything due for resend meets in one build" % (
                     len(message_lists()), " (quick: every 5th list per header, rotating)" if tier == "quick" else ""),
